@@ -189,10 +189,11 @@ func getSchedTable(c *an.Ctx, s *sched) *schedTable {
 }
 
 // checkSchedTable emits the clauses selected by want under rule.
-//   launch:    a stage is launched only when waiting, its condition (if any) held and the gate said true;
-//              Add, then Waiting→Running on that stage, then the go statement with that stage bound
-//   condition: the condition rows (C02.3)
-//   writes:    no status write and no Cancel in rows where they do not belong (C02.5 / C02.6)
+//
+//	launch:    a stage is launched only when waiting, its condition (if any) held and the gate said true;
+//	           Add, then Waiting→Running on that stage, then the go statement with that stage bound
+//	condition: the condition rows (C02.3)
+//	writes:    no status write and no Cancel in rows where they do not belong (C02.5 / C02.6)
 func checkSchedTable(c *an.Ctx, s *sched, rule string, want map[string]bool) {
 	t := getSchedTable(c, s)
 	key := func(x string) string { return an.Short(s.loopFn) + ":" + x }
